@@ -473,34 +473,7 @@ func (ex *Exec) load(st *State, in ssa.Instruction, a SVal) SVal {
 	u := ex.u
 	switch {
 	case a.Loc != nil:
-		k := localKey(a.Loc.alloc, a.Loc.path)
-		if v, ok := st.top().locals[k]; ok && (v.T != nil || v.Arr != nil || v.Closure != nil || v.Tuple != nil) {
-			return v
-		}
-		// struct-valued local: assemble a struct value from its field cells
-		if s, ok := a.Loc.typ.Underlying().(*types.Struct); ok {
-			srt := u.sortOf(a.Loc.typ)
-			fc.declSort(srt)
-			sv := fc.d.Fresh("struct", srt)
-			for i := 0; i < s.NumFields(); i++ {
-				f := s.Field(i)
-				if _, nested := f.Type().Underlying().(*types.Struct); nested {
-					continue
-				}
-				fk := localKey(a.Loc.alloc, a.Loc.path+"."+f.Name())
-				fv, ok := st.top().locals[fk]
-				var ft *Term
-				if ok && fv.T != nil {
-					ft = fv.T
-				} else {
-					ft = fc.zeroOf(f.Type())
-				}
-				st.assume(Eq(fc.structField(sv, a.Loc.typ, f), ft))
-			}
-			return SVal{Val: Val{T: sv, Typ: a.Loc.typ}}
-		}
-		z := fc.zeroOf(a.Loc.typ)
-		return SVal{Val: Val{T: z, Typ: a.Loc.typ}}
+		return ex.loadLocal(st, a.Loc.alloc, a.Loc.path, a.Loc.typ)
 	case a.HAddr != nil:
 		v := st.heap.read(fc.d, a.HAddr.key, a.HAddr.sort, a.HAddr.ref)
 		st.assume(fc.wellFormed(v, a.HAddr.typ, st.alloc()))
@@ -1149,4 +1122,121 @@ func (ex *Exec) slice(st *State, in *ssa.Slice) {
 		return
 	}
 	ex.setVal(st, in, SVal{Val: Val{T: SeqSlice(seq, lo, hi), Typ: in.Type()}})
+}
+
+// loadLocal reads a local cell (or a field path inside a struct-valued local). A struct-valued
+// local is represented by an optional whole value (the last whole-struct store) overlaid by
+// per-field cells written since; a read combines the two.
+func (ex *Exec) loadLocal(st *State, alloc *ssa.Alloc, path string, typ types.Type) SVal {
+	fc := ex.fc
+	u := ex.u
+	locals := st.top().locals
+	k := localKey(alloc, path)
+	v, has := locals[k]
+	hasVal := has && (v.T != nil || v.Arr != nil || v.Closure != nil || v.Tuple != nil)
+	s, isStruct := typ.Underlying().(*types.Struct)
+	if !isStruct {
+		if hasVal {
+			return v
+		}
+		// no cell of its own: the value comes from a whole-struct value of an enclosing path
+		if i := strings.LastIndex(path, "."); i >= 0 {
+			ppath, fname := path[:i], path[i+1:]
+			pt := pathType(alloc, ppath)
+			if pt != nil {
+				if ps, ok := pt.Underlying().(*types.Struct); ok {
+					pv := ex.loadLocal(st, alloc, ppath, pt)
+					for j := 0; j < ps.NumFields(); j++ {
+						if ps.Field(j).Name() == fname && pv.T != nil && isStructSort(pv.T.Sort) {
+							return SVal{Val: Val{T: fc.structField(pv.T, pt, ps.Field(j)), Typ: typ}}
+						}
+					}
+				}
+			}
+		}
+		return SVal{Val: Val{T: fc.zeroOf(typ), Typ: typ}}
+	}
+	// struct-valued: any field cells below this path?
+	overlay := false
+	for key, fv := range locals {
+		if strings.HasPrefix(key, k+".") && fv.T != nil {
+			overlay = true
+			break
+		}
+	}
+	if hasVal && v.T != nil && !overlay {
+		return v
+	}
+	var base *Term
+	if hasVal && v.T != nil && isStructSort(v.T.Sort) {
+		base = v.T
+	} else if !has || v.T == nil {
+		// maybe an enclosing struct has a whole value
+		if i := strings.LastIndex(path, "."); i >= 0 {
+			pt := pathType(alloc, path[:i])
+			if pt != nil {
+				if ps, ok := pt.Underlying().(*types.Struct); ok {
+					pk := localKey(alloc, path[:i])
+					if pv, ok := locals[pk]; ok && pv.T != nil && isStructSort(pv.T.Sort) {
+						for j := 0; j < ps.NumFields(); j++ {
+							if ps.Field(j).Name() == path[i+1:] {
+								base = fc.structField(pv.T, pt, ps.Field(j))
+							}
+						}
+					}
+				}
+			}
+		}
+	}
+	srt := u.sortOf(typ)
+	fc.declSort(srt)
+	sv := fc.d.Fresh("struct", srt)
+	for i := 0; i < s.NumFields(); i++ {
+		f := s.Field(i)
+		var ft *Term
+		if _, nested := f.Type().Underlying().(*types.Struct); nested {
+			ft = ex.loadLocal(st, alloc, path+"."+f.Name(), f.Type()).T
+		} else {
+			fk := localKey(alloc, path+"."+f.Name())
+			fv, ok := locals[fk]
+			switch {
+			case ok && fv.T != nil:
+				ft = fv.T
+			case base != nil:
+				ft = fc.structField(base, typ, f)
+			default:
+				ft = fc.zeroOf(f.Type())
+			}
+		}
+		if ft != nil {
+			st.assume(Eq(fc.structField(sv, typ, f), ft))
+		}
+	}
+	return SVal{Val: Val{T: sv, Typ: typ}}
+}
+
+// pathType: the type of the struct reached from a local alloc by a ".f.g" field path.
+func pathType(alloc *ssa.Alloc, path string) types.Type {
+	t := alloc.Type().Underlying().(*types.Pointer).Elem()
+	if path == "" {
+		return t
+	}
+	for _, name := range strings.Split(strings.TrimPrefix(path, "."), ".") {
+		s, ok := t.Underlying().(*types.Struct)
+		if !ok {
+			return nil
+		}
+		found := false
+		for i := 0; i < s.NumFields(); i++ {
+			if s.Field(i).Name() == name {
+				t = s.Field(i).Type()
+				found = true
+				break
+			}
+		}
+		if !found {
+			return nil
+		}
+	}
+	return t
 }
